@@ -263,6 +263,127 @@ def rec_family(rng, nrandom):
     return out
 
 
+# ---------------------------------------------------------------------------------------------
+# multi-template families (PYTHON TEST ORACLES: the expected output is composed from the known
+# output of each piece; they are not extracted from Coq)
+# ---------------------------------------------------------------------------------------------
+MT_AUX = {
+    "assigns": "{% set sv = 'X' %}{% set other = 'O' %}",
+    "mt_lay": "[{% block body %}{% endblock %}]|END",
+    "mt_ibase": "IB({% block x %}{% endblock %})",
+    "mt_inc_ext": "{% extends 'mt_ibase' %}dropped{% block x %}ix{% endblock %}",
+    "mt_mbase": "mbase-text{% block x %}{% endblock %}",
+    "mt_macros_ext": "{% extends 'mt_mbase' %}silenced{% macro m() %}<M>{% endmacro %}",
+    "mt_inc2": "x{% from 'mt_macros_ext' import m %}{{ m() }}y",
+    "mt_inc3": "u{% include 'mt_inc_ext' %}v",
+}
+SV_PROBE = "{{ 'P' if sv == 'P' else 'CHANGED' }}"
+
+
+def scope_ways():
+    """ways of assigning the sentinel variable sv inside a construct: (label, source, leaks into the enclosing frame?)"""
+    return [("set", "{% set sv = 'X' %}", True),
+            ("setblock", "{% set sv %}X{% endset %}", True),
+            ("with", "{% with sv = 'X' %}w{% endwith %}", False),
+            ("fortarget", "{% for sv in ['X'] %}f{% endfor %}", False),
+            ("include", "{% include 'assigns' %}", True),
+            ("import", "{% import 'assigns' as sv %}", True),
+            ("fromimport", "{% from 'assigns' import sv %}", True),
+            ("fromimportas", "{% from 'assigns' import other as sv %}", True),
+            ("macrodef", "{% macro sv() %}M{% endmacro %}", True)]
+
+
+def scope_constructs():
+    """(label, wrap(body) -> source, restores the variables?, text the construct itself writes around the body's)"""
+    return [("for", lambda b: "{% for i in [1] %}" + b + "{% endfor %}", True),
+            ("forelse", lambda b: "{% for i in [] %}n{% else %}" + b + "{% endfor %}", False),   # the else block runs in the enclosing frame
+            ("with", lambda b: "{% with w = 1 %}" + b + "{% endwith %}", True),
+            ("block", lambda b: "{% block bk%d %}" + b + "{% endblock %}", True),
+            ("macro", lambda b: "{% macro mc%d() %}" + b + "{% endmacro %}{{ mc%d() }}", True),
+            ("callblock", lambda b: "{% call wrapit() %}" + b + "{% endcall %}", True),
+            ("if", lambda b: "{% if true %}" + b + "{% endif %}", False),
+            ("setblock", lambda b: "{% set zz %}" + b + "{% endset %}{{ zz }}", False),
+            ("filterblock", lambda b: "{% filter replace('#', '#') %}" + b + "{% endfilter %}", False),
+            ("autoescape", lambda b: "{% autoescape true %}" + b + "{% endautoescape %}", False)]
+
+
+def scope_family():
+    """-> (label, templates, expected output).  After every construct the sentinel variable is shown."""
+    out = []
+    cons = scope_constructs()
+    uid = [0]
+    def inst(w, body):
+        uid[0] += 1
+        s = w(body)
+        return s.replace("%d", str(uid[0])) if "%d" in s else s
+    prelude = "{% macro wrapit() %}<{{ caller() }}>{% endmacro %}{% set sv = 'P' %}"
+    def wtxt(label):          # text the construct writes itself
+        return {"callblock": ("<", ">")}.get(label, ("", ""))
+    for wl, wsrc, leaks in scope_ways():
+        wout = {"with": "w", "fortarget": "f"}.get(wl, "")
+        for cl, cw, restores in cons:
+            # one level: construct around the assignment
+            src = prelude + inst(cw, wsrc + "(" + SV_PROBE + ")") + "|" + SV_PROBE + "|END"
+            inside = "CHANGED" if leaks else "P"
+            after = "P" if restores else inside
+            exp = wtxt(cl)[0] + wout + "(" + inside + ")" + wtxt(cl)[1] + "|" + after + "|END"
+            out.append(("scope:%s:%s" % (cl, wl), {"main": src}, exp))
+            # two levels: a second construct between, the variable shown after the inner and after the outer one
+            for cl2, cw2, restores2 in cons:
+                if cl2 == "block" and cl in ("macro", "callblock"):
+                    continue        # blocks cannot be declared inside macros
+                src = prelude + inst(cw, inst(cw2, wsrc + "(" + SV_PROBE + ")") + "~" + SV_PROBE + "~") + "|" + SV_PROBE + "|END"
+                after2 = "P" if restores2 else inside
+                after1 = "P" if restores else after2
+                exp = (wtxt(cl)[0] + wtxt(cl2)[0] + wout + "(" + inside + ")" + wtxt(cl2)[1] + "~" + after2 + "~" + wtxt(cl)[1] + "|" + after1 + "|END")
+                out.append(("scope2:%s:%s:%s" % (cl, cl2, wl), {"main": src}, exp))
+        # blocks reached through inheritance: the child's block runs from the layout and must not change the layout's variables
+        lay = "{% set sv = 'P' %}<{% block bk %}{% endblock %}>|" + SV_PROBE + "|END"
+        child = "{% extends 'scope_lay' %}{% block bk %}" + wsrc + "(" + SV_PROBE + "){% endblock %}"
+        inside = "CHANGED" if leaks else "P"
+        out.append(("scope:childblock:%s" % wl, {"main": child, "scope_lay": lay}, "<" + wout + "(" + inside + ")>|P|END"))
+        lay2 = "{% set sv = 'P' %}<{% block bk %}" + wsrc + "(" + SV_PROBE + "){% endblock %}>|" + SV_PROBE + "|END"
+        child2 = "{% extends 'scope_lay' %}{% block bk %}[{{ super() }}](" + SV_PROBE + "){% endblock %}"
+        out.append(("scope:superblock:%s" % wl, {"main": child2, "scope_lay": lay2}, "<[" + wout + "(" + inside + ")](P)>|P|END"))
+    return out
+
+
+def extends_family():
+    """imports / includes of EXTENDING templates from every kind of output context -> (label, templates, expected)"""
+    RE = "IB(ix)"
+    actions = [("include_ext", "{% include 'mt_inc_ext' %}", RE),
+               ("import_ext", "{% import 'mt_macros_ext' as mx %}{{ mx.m() }}", "<M>"),
+               ("from_ext", "{% from 'mt_macros_ext' import m %}{{ m() }}", "<M>"),
+               ("include_from_ext", "{% include 'mt_inc2' %}", "x<M>y"),
+               ("include_include_ext", "{% include 'mt_inc3' %}", "u" + RE + "v")]
+    out = []
+    for al, asrc, aout in actions:
+        body = "a" + asrc + "b"
+        bout = "a" + aout + "b"
+        ctxs = [("top", body + "|END", bout + "|END"),
+                ("setblock", "{% set cap %}" + body + "{% endset %}<{{ cap }}>|END", "<" + bout + ">|END"),
+                ("filterblock", "{% filter upper %}" + body + "{% endfilter %}|END", bout.upper() + "|END"),
+                ("block", "{% block k %}" + body + "{% endblock %}|END", bout + "|END"),
+                ("for", "{% for i in [1, 2] %}" + body + "{% endfor %}|END", bout + bout + "|END"),
+                ("macro", "{% macro mm() %}" + body + "{% endmacro %}{{ mm() }}|END", bout + "|END"),
+                ("with", "{% with w = 1 %}" + body + "{% endwith %}|END", bout + "|END"),
+                ("autoescape", "{% autoescape true %}" + body + "{% endautoescape %}|END", bout + "|END"),
+                ("child_top", "{% extends 'mt_lay' %}" + body + "{% block body %}B{% endblock %}", "[B]|END"),
+                ("child_top_setblock", "{% extends 'mt_lay' %}{% set cap %}" + body + "{% endset %}{% block body %}{{ cap }}{% endblock %}", "[" + bout + "]|END"),
+                ("child_block", "{% extends 'mt_lay' %}{% block body %}" + body + "{% endblock %}", "[" + bout + "]|END"),
+                ("child_block_setblock", "{% extends 'mt_lay' %}{% block body %}{% set cap %}" + body + "{% endset %}<{{ cap }}>{% endblock %}", "[<" + bout + ">]|END"),
+                ("from_imported", "p{% from 'mt_host_" + al + "' import hm %}q{{ hm() }}|END", "pqh|END")]
+        for cl, src, exp in ctxs:
+            t = {"main": src}
+            if cl == "from_imported":
+                t["mt_host_" + al] = body + "{% macro hm() %}h{% endmacro %}"
+            out.append(("ext:%s:%s" % (cl, al), t, exp))
+    # the imported name used in a block of an extending child (the import happens while the output is silenced)
+    out.append(("ext:child_import_used_in_block", {"main": "{% extends 'mt_lay' %}{% from 'mt_macros_ext' import m %}SILENCED{% block body %}{{ m() }}{% endblock %}"}, "[<M>]|END"))
+    out.append(("ext:child_import_as_used_in_block", {"main": "{% extends 'mt_lay' %}{% import 'mt_macros_ext' as mx %}SILENCED{% block body %}{{ mx.m() }}{% endblock %}"}, "[<M>]|END"))
+    return out
+
+
 def fixture_cases():
     """-> (name, source, context or None, aux templates): the repository's fixtures with their own context (first part of
     the file) and the templates under inputs/refs they include / extend"""
@@ -365,7 +486,7 @@ def main():
     if chk.replay:
         rp = json.load(open(chk.replay))["replay"]
         ctxs = ([rp["context"]] if isinstance(rp.get("context"), dict) else []) + base_ctxs
-        aux = dict(base_aux); aux.update(REC_AUX); aux.update(rp.get("aux") or {})
+        aux = dict(base_aux); aux.update(REC_AUX); aux.update(MT_AUX); aux.update(rp.get("aux") or {})
         add("replay", rp["template"], ctxs=ctxs, aux=aux, sentinel=None, main=rp.get("main", "main"))
     else:
         depth = 3 if chk.thorough else 2
@@ -419,6 +540,11 @@ def main():
                     es.append(None)
             T[ti]["expect"] = es
             k += n
+        # multi-template families (Python test oracles): variables after every scoped construct, extends under capture / discard
+        for label, tm, exp in scope_family() + extends_family():
+            aux = dict(MT_AUX); aux.update({k: v for k, v in tm.items() if k != "main"})
+            add("mt:" + label, tm["main"], ctxs=[{}], expect=[("ok", exp)], aux=aux, sentinel="|END")
+            hist["mt_family_" + label.split(":")[0]] += 1
         for name, src, ctx, refs in fixture_cases():
             add("fixture:" + name, src, ctxs=[ctx] if ctx is not None else [], aux=refs, sentinel=None, main=name, dynamic=False)
     tlog("templates: %d" % len(T))
@@ -429,7 +555,7 @@ def main():
         tm = dict(t["aux"]); tm[t["main"]] = t["src"]
         reqs.append({"templates": tm, "main": t["main"], "ctx": {}, "ops": ["instructions"]})
         owners.append((ti, t["main"]))
-        if t["name"].startswith("rec:") or t["name"] == "replay":
+        if t["name"].startswith("rec:") or t["name"].startswith("mt:") or t["name"] == "replay":
             for an, asrc in t["aux"].items():
                 if (an, asrc) not in aux_seen:
                     aux_seen[(an, asrc)] = ti
@@ -516,8 +642,10 @@ def main():
                 if t["sentinel"] and not rr["ok"].endswith(t["sentinel"]):
                     dyn_bad.append((ti, ci, rel, "text after the construct did not reach the output", rr["ok"][-60:]))
                 elif want is not None and want != ("ok", rr["ok"]):
-                    what = ("a recursive loop did not render the fold over the tree (operand, capture or escape state not restored around a recursion call)"
-                            if t["name"].startswith("rec:") else "auto-escape state not restored after a construct")
+                    what = ("a recursive loop did not render the fold over the tree (operand, capture or escape state not restored around a recursion call)" if t["name"].startswith("rec:")
+                            else "variable scope not as before a scoped construct (sentinel variable after the construct)" if t["name"].startswith("mt:scope")
+                            else "output of a template that extends / imports / includes an extending template went to the wrong target (capture state across the hand-over to the parent)" if t["name"].startswith("mt:ext")
+                            else "auto-escape state not restored after a construct")
                     dyn_bad.append((ti, ci, rel, what, "got %r expected %r" % (rr["ok"][-200:], want)))
                 elif want is not None:
                     hist["expected_output_agree"] += 1
@@ -530,7 +658,8 @@ def main():
             elif "err" in rr:
                 hist["render_err_%s" % ERR_NAMES.get(rr["err"], rr["err"])] += 1
                 if want is not None and want != ("err", rr["err"]):
-                    dyn_bad.append((ti, ci, rel, "a recursive loop did not render the fold over the tree (operand, capture or escape state not restored around a recursion call)",
+                    dyn_bad.append((ti, ci, rel, "a render that must succeed failed / fails with another error kind (state not restored around a construct)" if not t["name"].startswith("rec:") else
+                                    "a recursive loop did not render the fold over the tree (operand, capture or escape state not restored around a recursion call)",
                                     "got error kind %r expected %r" % (rr["err"], want)))
                 elif want is not None:
                     hist["expected_error_agree"] += 1
@@ -546,7 +675,7 @@ def main():
             tr_idx.append((ti, ci))
     env = dict(ENV); env["MJVERIF_WATCHDOG_MS"] = "8000"
     probe = run_json([bin_path("c05_trace")], tr_reqs[:1], env=env) if tr_reqs else []
-    trace_bad = []
+    trace_bad, proto_bad = [], []
     if probe and probe[0].get("hook") is False:
         chk.notes["trace"] = "the tree under test has no shape observer (hook commit `hook: verif_hooks shape observer` not applied): the step-by-step tie of the abstract machine to eval_impl was NOT run"
         hist["trace_hook_missing"] = 1
@@ -561,6 +690,31 @@ def main():
                 continue
             if r.get("truncated"):
                 hist["trace_truncated"] += 1
+            # how an activation starts, relative to the instruction of its parent that started it (vm/mod.rs: call_block and
+            # perform_super push one frame, a capturing super() begins a capture, perform_include runs on the current frame)
+            for ai, b in enumerate(r.get("born") or []):
+                if not b or ai >= len(r["acts"]) or not r["acts"][ai]:
+                    continue
+                pins = r["streams"][b[1]][b[2]]
+                first = r["acts"][ai][0][1][0]
+                want = None
+                if pins["op"] in ("CallBlock", "FastSuper"):
+                    want = (b[4] + 1, b[5])
+                elif pins["op"] == "CallFunction" and pins["arg"][0] == "super":
+                    want = (b[4] + 1, b[5] + 1)
+                elif pins["op"] == "Include":
+                    want = (b[4], b[5])
+                if want is not None:
+                    hist["trace_entry_protocol_" + pins["op"]] += 1
+                    if (first[2], first[3]) != want:
+                        proto_bad.append((ti, ci, ai, pins, b, first, want))
+            # an `extends` hands over to the parent's instructions in the same activation: it must start from the entry state
+            for ai, act in enumerate(r["acts"]):
+                for k in range(1, len(act)):
+                    hist["trace_handovers"] += 1
+                    f0, fk = act[0][1][0], act[k][1][0]
+                    if fk[0] != 0 or fk[1:] != f0[1:]:
+                        proto_bad.append((ti, ci, ai, {"op": "(hand-over to the parent template)"}, f0, fk, tuple(f0[1:])))
             per_stream = collections.defaultdict(list)      # stream index -> [(activation, observations)]
             for ai, act in enumerate(r["acts"]):
                 for si, obs in act:
@@ -624,6 +778,7 @@ def main():
     chk.cov["streams_rejected"] = len(rejected)
     chk.cov["dynamic_failures"] = len(dyn_bad)
     chk.cov["trace_failures"] = len(trace_bad)
+    chk.cov["entry_protocol_failures"] = len(proto_bad)
     # ---- verdicts ----
     seen = set()
     def replay_of(ti, ci=None):
@@ -669,6 +824,12 @@ def main():
                      "instruction_before": code[v[4]] if len(v) > 4 and v[4] < len(code) else None, "family": T[ti]["name"],
                      "note": "the observed run of eval_impl is not a run of the abstract machine: the VM holds other frames / captures / auto-escape entries / operands than the model says (the VM is unbalanced here, or Model.v misdescribes it)"})
         chk.violation("an observed run of eval_impl leaves the abstract shape machine (step-by-step replay of the traced render)", info)
+    for ti, ci, ai, pins, b, first, want in proto_bad[:5]:
+        info = replay_of(ti, ci)
+        info.update({"activation": ai, "started_by": pins, "parent_observation": b, "first_observation": first, "expected_frames_captures": list(want), "family": T[ti]["name"],
+                     "note": "observations are [pc, operand stack, context frames, open captures, auto-escape entries]; a block / super() body must run one frame above its caller, an include on the caller's frame, "
+                             "the parent template of an `extends` from the state the activation started in"})
+        chk.violation("a nested evaluation does not start in the state the construct promises (scope / capture depth at the entry of a block, super(), include or at the hand-over of extends)", info)
     if not chk.violations and not proofs_ok:
         chk.violation("proof obligations of C05 do not check", {"theorem_or_correspondence": chk.proof["problems"]}, True)
     chk.finish()
